@@ -610,6 +610,9 @@ def reload_stage(ctx, replay_obj=None):
             if p.returncode != 4:          # 4 = port clash
                 break
         if p.returncode != 0:
+            m = re.search(r"(fatal error: [^\n]*|panic: [^\n]*)", p.stderr)
+            if m and p.returncode != 3:      # 3 = the harness's own Die(); anything else with a Go panic = the engine died
+                raise EngineCrash(m.group(1))
             raise Broken("harness c18h reload failed rc=%d: %s" % (p.returncode, p.stderr[-2000:]))
         return read_ndjson(os.path.join(d, "trace-000.ndjson"))
 
@@ -618,7 +621,11 @@ def reload_stage(ctx, replay_obj=None):
 
     if replay_obj is not None:
         for attempt in range(10):
-            tr = record(replay_obj["script"], "replay")
+            try:
+                tr = record(replay_obj["script"], "replay")
+            except EngineCrash as c:
+                print("engine process crashed: %s" % c)
+                return 1
             acc, rej, _ = judge_reload(tr, "replay")
             if rej:
                 for e in rej[0]["hist"][max(0, rej[0]["at"] - 12): rej[0]["at"] + 2]:
@@ -645,7 +652,20 @@ def reload_stage(ctx, replay_obj=None):
                 cur = to
         hists.append(h)
     script = {"histories": hists}
-    trace = record(script, "reload")
+    try:
+        trace = record(script, "reload")
+    except EngineCrash as c:
+        # the engine process dying while transactions are handled during a reload is itself an observation (no transaction of
+        # the history got its answer); it counts once it happens again on a re-run
+        for attempt in range(5):
+            try:
+                record(script, "reload-recrash")
+            except EngineCrash as c2:
+                ctx.violation({"class": "engine-process-crashed", "level": "spoe-handler-reload", "message": str(c2)[:200]},
+                              {"stage": "reload", "harness": "c18h", "script": script, "first_message": str(c), "schedule_dependent": True,
+                               "crash": True})
+                return
+        raise Broken("engine crash during the reload stage not reproduced in 5 runs: %s" % c)
     acc, rejected, _ = judge_reload(trace, "reload")
     ctx.cov["traces_validated_against_impl"] += acc
     ntx = sum(e.get("n", 0) for e in trace if e.get("op") == "req")
@@ -659,7 +679,14 @@ def reload_stage(ctx, replay_obj=None):
         # schedule-dependent: the same script is executed again until the specification rejects again
         again = None
         for attempt in range(4):
-            t2 = record(script, "reload-repro")
+            try:
+                t2 = record(script, "reload-repro")
+            except EngineCrash as c:
+                # second observation on the same script: the first run was rejected by the specification, this one killed the engine
+                ctx.violation({"class": "engine-process-crashed", "level": "spoe-handler-reload", "message": str(c)[:200]},
+                              {"stage": "reload", "harness": "c18h", "script": script, "first_message": "history rejected by ReloadLinTrace",
+                               "schedule_dependent": True, "crash": True})
+                return
             a2, r2, _ = judge_reload(t2, "reload-repro")
             if r2:
                 again = r2[0]
